@@ -20,7 +20,7 @@ theorem stepRet_ok {s s' : State} {t : Tid} {ok : Bool} {msg : String} (h : step
 
 theorem step_tr {cfg : Config} {s s' : State} {e : Event} (h : step cfg s e = .ok s') : Tr cfg s e s' := by
   cases e with
-  | skip => simp only [step] at h; cases h; exact .same _ rfl
+  | skip => simp only [step] at h; cases h; exact .same _ rfl rfl
   | tick ns =>
     simp only [step, need_ok] at h
     cases h.2; exact .tick ns h.1
@@ -93,10 +93,12 @@ theorem step_tr {cfg : Config} {s s' : State} {e : Event} (h : step cfg s e = .o
   | semPdRet t k to => exact tr_semPdRet h
   | semPEnter t k =>
     simp only [step, need_ok] at h
-    cases h.2; exact .same _ rfl
+    cases h.2; exact .same _ rfl rfl
   | semPRet t k =>
     simp only [step, need_ok] at h
-    cases h.2.2; exact .semOther _ _ rfl
+    have hopen := h.1
+    cases h.2.2
+    exact .semOther _ _ rfl (fun u hu => by simp only [Event.tid, Option.some.injEq] at hu; subst hu; exact hopen)
   | semV t k => exact tr_semV h
   | wInit t r =>
     simp only [step, need_ok] at h
@@ -110,7 +112,7 @@ theorem step_tr {cfg : Config} {s s' : State} {e : Event} (h : step cfg s e = .o
     exact .nwInit t r hl hm hst
   | fLd t r f obs =>
     simp only [step, need_ok] at h
-    cases h.2.2.2; exact .same _ rfl
+    cases h.2.2.2; exact .same _ rfl rfl
   | fSt t r f new =>
     simp only [step, need_ok] at h
     obtain ⟨hl, hf, h⟩ := h
@@ -126,19 +128,28 @@ theorem step_tr {cfg : Config} {s s' : State} {e : Event} (h : step cfg s e = .o
     split at h
     · rename_i hk; subst hk; cases h
       exact .fCasOk t r exp new obs hl hf hn ho (by simpa using hok.symm)
-    · cases h; exact .same _ rfl
+    · cases h; exact .same _ rfl rfl
   | noteSeen t =>
     simp only [step] at h
     split at h
     · rename_i hl; cases h; exact .loc (.noteSeen (.inl hl))
     · rename_i hl; cases h; exact .loc (.noteSeen (.inr (.inl hl)))
     · rename_i hl; cases h; exact .loc (.noteSeen (.inr (.inr hl)))
-    · cases h; exact .same _ rfl
+    · cases h; exact .same _ rfl rfl
   | noteNotify t =>
     simp only [step, need_ok] at h
     obtain ⟨⟨hl, ht⟩, h⟩ := h
     cases h
     exact .loc (.noteNotify hl ht)
+  | callDebug t k =>
+    simp only [step] at h
+    obtain ⟨hl, rfl⟩ := stepCall_ok h
+    exact .loc (.callDebug k hl)
+  | retDebug t k =>
+    simp only [step] at h
+    obtain ⟨hok, rfl⟩ := stepRet_ok h
+    simp only [decide_eq_true_eq] at hok
+    exact .loc (.retDebug k hok.1 hok.2)
 
 /-- Induction over reachable states via `Tr`. -/
 theorem run_induct {cfg : Config} {P : State → Prop}
